@@ -17,6 +17,15 @@ def tags_of(files, op):
     trees = {p: ast.parse(t) for p, t in files.items() if p.endswith(".py")}
     defs = [n for t in trees.values() for n in ast.walk(t) if isinstance(n, (ast.FunctionDef, ast.AsyncFunctionDef)) and n.name == target]
     calls = [n for t in trees.values() for n in ast.walk(t) if isinstance(n, ast.Call) and ((isinstance(n.func, ast.Name) and n.func.id == target) or (isinstance(n.func, ast.Attribute) and n.func.attr == target))]
+    if not defs and target:
+        # the offset is on a parameter (in the header or in the body): inline-parameter rewrites the
+        # calls of that function, so the call-site hazards are the same
+        lines = src[: op["offset"]].count("\n") + 1
+        for t in trees.values():
+            for n in ast.walk(t):
+                if isinstance(n, (ast.FunctionDef, ast.AsyncFunctionDef)) and n.lineno <= lines <= n.end_lineno and target in [a.arg for a in n.args.posonlyargs + n.args.args + n.args.kwonlyargs] and t is trees.get(op["path"]):
+                    defs = [n]
+                    calls = [c for t2 in trees.values() for c in ast.walk(t2) if isinstance(c, ast.Call) and ((isinstance(c.func, ast.Name) and c.func.id == n.name) or (isinstance(c.func, ast.Attribute) and c.func.attr == n.name))]
     for d in defs:
         params = [a.arg for a in d.args.posonlyargs + d.args.args + d.args.kwonlyargs]
         stores = {n.id for st in d.body for n in ast.walk(st) if isinstance(n, ast.Name) and isinstance(n.ctx, ast.Store)}
@@ -36,6 +45,18 @@ def tags_of(files, op):
         outer_names = {n.id for t in trees.values() for st in t.body if not isinstance(st, (ast.FunctionDef, ast.ClassDef)) for n in ast.walk(st) if isinstance(n, ast.Name) and isinstance(n.ctx, ast.Store)}
         if locals_ & outer_names:
             tags.add("body-local-clashes-with-caller-name")
+        # cross-module: a global of the defining module that the body reads is imported into the using
+        # module, where a name of the same spelling is already bound
+        def_mod = next((t for t in trees.values() if any(n is d for n in ast.walk(t))), None)
+        if def_mod is not None:
+            def_top = {n.id for st in def_mod.body for n in ast.walk(st) if isinstance(n, ast.Name) and isinstance(n.ctx, ast.Store)} | {st.name for st in def_mod.body if isinstance(st, (ast.FunctionDef, ast.ClassDef))}
+            body_reads = {n.id for st in d.body for n in ast.walk(st) if isinstance(n, ast.Name) and isinstance(n.ctx, ast.Load)} - set(params) - stores
+            for t in trees.values():
+                if t is def_mod:
+                    continue
+                other_top = {n.id for st in t.body for n in ast.walk(st) if isinstance(n, ast.Name) and isinstance(n.ctx, ast.Store)} | {st.name for st in t.body if isinstance(st, (ast.FunctionDef, ast.ClassDef))}
+                if body_reads & def_top & other_top:
+                    tags.add("body-global-clashes-with-a-name-of-the-using-module")
         if len(calls) > 1 and any(c.keywords or len(c.args) < len(params) for c in calls):
             tags.add("several-callsites-keyword-or-default")
     if not defs and target:
